@@ -17,12 +17,13 @@ import vlib
 from vlib import proof_coverage
 
 LEVEL = "other"
+STUB_KINDS = ["exact", "exact", "drop_in", "extra_q", "swap", "owned", "bool_count", "int_out", "float_param", "none_out"]
 QNAMES = ["q", "a", "b", "anc", "z", "data", "q2", "B"]
 CNAMES = ["c", "m", "out", "r"]
 SYMS = ["alpha", "beta", "gamma", "a", "b", "a1", "a10", "a2", "theta", "Z", "x_1", "phi"]
 
 
-def gen_case(r, force_arrays=None):
+def gen_case(r, force_arrays=None, stray=False):
     nq = r.randint(1, 3)
     qregs = [[n, r.randint(1, 3)] for n in r.sample(QNAMES, nq)]
     cregs = [[n, r.randint(1, 2)] for n in r.sample(CNAMES, r.randint(0, 2))]
@@ -30,7 +31,27 @@ def gen_case(r, force_arrays=None):
     meta = list(syms)
     r.shuffle(meta)
     arrays = r.random() < 0.5 if force_arrays is None else force_arrays
-    return {"qregs": qregs, "cregs": cregs, "symbols": syms, "meta_order": meta, "arrays": arrays, "stub": None}
+    case = {"qregs": qregs, "cregs": cregs, "symbols": syms, "meta_order": meta, "arrays": arrays, "stub": None}
+    if not arrays and stray and r.random() < 0.5:
+        # units outside the registers pytket reports: the FLAT form must still offer one qubit per element of
+        # circuit.qubits and one bool per element of circuit.bits (the array form is only defined per register)
+        if r.random() < 0.5:
+            case["default"] = [r.randint(1, 4), r.randint(0, 2)]
+            case["qregs"] = [x for x in qregs if x[0] != "q"][: r.randint(0, 2)]
+            case["cregs"] = [x for x in cregs if x[0] != "c"]
+        names_q = [n for n in ["anc", "w", "q9", "aa"] if n not in [x[0] for x in case["qregs"]]]
+        names_b = [n for n in ["flag", "f2", "bb"] if n not in [x[0] for x in case["cregs"]]]
+        sq, sb = set(), set()
+        for _ in range(r.randint(0, 3)):
+            sq.add((r.choice(names_q), r.choice([0, 1, 2, 5])))
+        for _ in range(r.randint(0, 2)):
+            sb.add((r.choice(names_b), r.choice([0, 2, 3])))
+        case["stray_q"], case["stray_b"] = sorted(map(list, sq)), sorted(map(list, sb))
+        case["rename"] = r.random() < 0.25
+        if r.random() < 0.4:
+            case["remove_blank"] = True
+            case["blank_q"] = sorted(r.sample(range(8), r.randint(1, 3)))
+    return case
 
 
 def gty_py(t):
@@ -94,8 +115,12 @@ def coq_gty(t):
 def coq_case(case, pyt):
     """the circuit as the wiring code sees it: register sizes as pytket REPORTS them, names -> ranks"""
     rank = {n: i for i, n in enumerate(sorted(case["symbols"]))}
-    q = "[" + "; ".join(str(s) for _, s in pyt["q_registers"]) + "]%nat"
-    c = "[" + "; ".join(str(s) for _, s in pyt["c_registers"]) + "]%nat"
+    if case["arrays"]:
+        qs, cs = [s for _, s in pyt["q_registers"]], [s for _, s in pyt["c_registers"]]
+    else:   # the flat form only sees UNITS: one size-1 register per element of circuit.qubits / circuit.bits
+        qs, cs = [1] * len(pyt["qubits"]), [1] * len(pyt["bits"])
+    q = "[" + "; ".join(map(str, qs)) + "]%nat"
+    c = "[" + "; ".join(map(str, cs)) + "]%nat"
     m = "[" + "; ".join(f"{10 * rank[n] + 3}%Z" for n in case["meta_order"]) + "]"
     circ = f"(mkCirc {q} {c} {m})"
     arr = "true" if case["arrays"] else "false"
@@ -147,6 +172,23 @@ def encw_py(w):
     k = w[0]
     return {"InQ": lambda: [0, w[1], 0], "InQArr": lambda: [1, w[1], w[2]], "InP": lambda: [2, w[1], 0],
             "CFalse": lambda: [3, 0, 0], "Out": lambda: [4, w[1], 0]}.get(k, lambda: [9, 0, 0])()
+
+
+def spec_sig(case, pyt):
+    """the property's wording: flat form = one borrowed qubit per element of circuit.qubits, one angle per symbol,
+    one bool per element of circuit.bits; array form = one array per reported register (+ one angle array)"""
+    npar = len(case["symbols"])
+
+    def row(ts):
+        return [5] if not ts else ts[0] if len(ts) == 1 else [4, len(ts)] + [x for t in ts for x in t]
+    if case["arrays"]:
+        ins = [[3, 0, s, 1] for _, s in pyt["q_registers"]] + ([[3, 1, npar, 0]] if npar else [])
+        return [ins, row([[3, 2, s] for _, s in pyt["c_registers"]])]
+    return [[[0, 1]] * len(pyt["qubits"]) + [[1, 0]] * npar, row([[2]] * len(pyt["bits"]))]
+
+
+def spec_accepts(stub, pyt, npar):
+    return stub["ins"] == [[["q"], True]] * len(pyt["qubits"]) + [[["a"], False]] * npar and stub["outs"] == [["b"]] * len(pyt["bits"])
 
 
 def spec_wiring(case, pyt):
@@ -303,15 +345,18 @@ def run(ctx):
         for f in sorted(corpus.glob("case_*.json")):
             cases.append(json.loads(f.read_text()))
     for _ in range(n):
-        c = gen_case(r)
+        c = gen_case(r, stray=True)
         if not c["arrays"] and r.random() < 0.7:
-            c["stub"] = make_stub(r, c)
+            c["stub"] = {"kind": r.choice(STUB_KINDS), "r1": r.randrange(1000), "r2": r.randrange(1000)}
         cases.append(c)
-    payload = {"cases": [{**c, "stub": ({"src": c["stub"]["src"].replace("@ owned", "@ owned")} if c.get("stub") else None)} for c in cases]}
+    payload = {"cases": cases}
     # the stub module needs `owned`
     payload["histories"] = [h["ops"] for h in histories]
     impl_all = json.loads(ctx.impl("impl_pytket.py", payload))
     impl, himpl = impl_all["results"], impl_all["histories"]
+    for c_, res_ in zip(cases, impl):
+        if c_.get("stub"):
+            c_["stub"] = res_.get("stub") or None      # built by the harness from the circuit's real unit counts
     model = None
     usable = [k for k, res in enumerate(impl) if "pytket" in res]
     if info["ok"] or (vlib.COQ / "C26" / "Model.vo").exists():
@@ -347,7 +392,28 @@ def run(ctx):
                        {**desc, "error": res.get("sig_err"), "replay": replay})
             continue
         pyt = res["pytket"]
-        if not (pyt["registers_flatten_to_qubits"] and pyt["q_registers_sorted"]):
+        stray_units = sum(s_ for _, s_ in pyt["q_registers"]) != len(pyt["qubits"]) or sum(s_ for _, s_ in pyt["c_registers"]) != len(pyt["bits"])
+        stats["stray_unit_circuits"] = stats.get("stray_unit_circuits", 0) + bool(stray_units)
+        if case["arrays"] and stray_units:
+            ctx.report("arrays-stray-units:" + json.dumps(desc["case"], sort_keys=True), "counterexample",
+                       "load_pytket(use_arrays=True) on a circuit with units outside the registers pytket reports: the stray units are "
+                       "matched to nothing (signature and unpacking go by q_registers/c_registers, the call needs n_qubits/n_bits wires)",
+                       {**desc, "pytket": pyt, "signature": res.get("sig"), "wiring": res.get("wiring"), "replay": replay})
+            continue
+        real_sig = [[enc_type_str(t) + [1 if io else 0] for t, io in res["sig"]["inputs"]], enc_type_str(res["sig"]["output"])]
+        if real_sig != spec_sig(case, pyt):
+            stats["mismatch"] += 1
+            ctx.report(f"sig-wording:{json.dumps(desc, sort_keys=True)}", "counterexample",
+                       "inferred signature is not 'one qubit per circuit qubit, one angle per symbol, one bool per circuit bit'",
+                       {**desc, "circuit_qubits": pyt["qubits"], "circuit_bits": pyt["bits"], "pytket": pyt, "real_signature": res["sig"],
+                        "expected_encoded": spec_sig(case, pyt), "real_encoded": real_sig, "replay": replay})
+        if case.get("stub") and res["stub_accepted"] is not spec_accepts(case["stub"], pyt, len(case["symbols"])):
+            stats["mismatch"] += 1
+            ctx.report(f"stub-wording:{json.dumps(desc, sort_keys=True)}", "counterexample",
+                       "stub acceptance differs from 'accepted iff it has one qubit per circuit qubit, one angle per symbol, one bool per circuit bit'",
+                       {**desc, "circuit_qubits": pyt["qubits"], "circuit_bits": pyt["bits"], "real": res["stub_accepted"],
+                        "error": res.get("stub_error"), "inferred_signature": res["sig"], "replay": replay})
+        if case["arrays"] and not (pyt["registers_flatten_to_qubits"] and pyt["q_registers_sorted"]):
             ctx.report(f"pytket-order:{json.dumps(desc, sort_keys=True)}", "counterexample",
                        "pytket does not report the qubit registers in lexicographic order / registers do not flatten to circ.qubits",
                        {**desc, "pytket": pyt})
